@@ -1961,7 +1961,10 @@ def run_check(ctx, prop):
                 "2**16 and 2**24 - up to 6 000 000 x 8 and 650 000 x 32 - with an all-common column, a column without any row at the common value "
                 "and ordinary sparse columns, then every route that moves the common value: shift_common(v)/(), append, filtered, reindexed merge, "
                 "column_stack of different commons) is judged by a SPARSE oracle only (numpy set operations on the entries, numpy well-formedness "
-                "test; coverage.giant_sparse_*).  FORM of the arguments: in 60 %% of the steps every argument is handed over in another form with the same "
+                "test; coverage.giant_sparse_*; C06 and C07 only); C15 instead runs a large NEAR-TIE stream (from_array receivers of about 65 536 cells, "
+                "1-4 columns, whose common value leads the runner-up by 20-2000 cells, then append / update / union_update / filtered batches of "
+                "lead/ncols .. lead*ncols cells so that the most frequent value flips or ties; oracle only: NumPy counts on the dense array, "
+                "validate(True), twins; coverage.near_tie_*).  FORM of the arguments: in 60 %% of the steps every argument is handed over in another form with the same "
                 "content (coverage.argument_form_tags): sliced orders as list/tuple/range; precedence lists as list/tuple/ndarray/lists of NumPy "
                 "scalars; mappings as dict/OrderedDict/defaultdict with NumPy-scalar keys (and values except for reindexed); filtered masks as "
                 "bool ndarray / strided view / read-only; row ids of update/union/intersection/difference/set_if/iindex(...) as contiguous uint32, "
@@ -2200,6 +2203,35 @@ def run_check(ctx, prop):
     plan = (["above-2^24-long", "above-2^24-wide", "above-2^24-long", "above-2^24-wide", "just-above-2^24", "at-2^24", "just-below-2^24"] + ["around-2^16"] * 8
             if ctx.tier == "quick" else
             ["above-2^24-long", "above-2^24-wide"] * 8 + ["just-above-2^24", "at-2^24", "just-below-2^24"] * 4 + ["around-2^16"] * 60)
+    if prop == "C15":
+        plan = []          # (the giant stream is about C06's content and C07's well-formedness; C15 has the near-tie stream instead)
+        nt = collections.Counter()
+        nt_j = 0
+        nt_cases = []
+        for k in range(12 if ctx.tier == "quick" else 80):
+            q = near_tie_params(rng)
+            try:
+                probs, nj, info = run_near_tie_case(impl, rng, q)
+            except Exception as e:  # noqa
+                import traceback
+                probs, nj, info = [(prop, "near-tie:unexpected-exception", "%s: %s  %s" % (type(e).__name__, str(e)[:160], traceback.format_exc()[-500:]))], 0, {"ops": [], "kind": None, "flipped": False, "tied": False}
+            nt_j += nj
+            nt[q["class"]] += 1
+            nt["%s columns" % (q["cols"] or 1)] += 1
+            nt["batch: %s" % info["kind"]] += 1
+            if info["flipped"]:
+                nt["most frequent value flipped"] += 1
+            if info["tied"]:
+                nt["exact tie after the batch"] += 1
+            nt_cases.append("%s %dx%s lead %d: %s%s%s" % (q["class"], q["rows"], q["cols"] or 1, q["lead"], info["kind"], " flipped" if info["flipped"] else "", " tie" if info["tied"] else ""))
+            for (pp, sig, text) in probs:
+                if pp == prop:
+                    extra_problems.append((sig, text, {"near_tie": q, "ops": info["ops"], "observed": text[:900],
+                                                       "how": "a = iindex_hist.near_tie_array(near_tie); idx = iindex.from_array(a); apply ops; NumPy counts on the dense array, twins (no Coq literal)"}))
+        ctx.coverage["near_tie_cases(oracle only)"] = sum(1 for _ in nt_cases)
+        ctx.coverage["near_tie_judgements"] = nt_j
+        ctx.coverage["near_tie_distribution"] = dict(nt)
+        ctx.coverage["near_tie_cases"] = nt_cases
     giant_tags, giant_j = [], 0
     giant_cols = collections.Counter()
     for klass in plan:
@@ -2403,6 +2435,11 @@ def replay_check(ctx, prop, path):
         for p in st.problems:
             print("one-step replay: %s %s: %s" % p)
             found.append(p)
+    if r.get("near_tie"):
+        probs, nj, info = run_near_tie_case(impl, ctx.rng, r["near_tie"], r.get("ops"))
+        for pr_ in probs:
+            print("near-tie replay: %s %s: %s" % (pr_[0], pr_[1], pr_[2][:400]))
+            found.append(pr_)
     if r.get("giant"):
         probs, nj, tag = run_giant_case(impl, r["giant"])
         for pr_ in probs:
@@ -2450,7 +2487,7 @@ def replay_check(ctx, prop, path):
     ctx.nontrivial.update(range(max(2, ctx.evaluations)))
     mine = [f for f in found if f[0] == prop]
     if mine:
-        ctx.report(mine[0][1], "replayed failing input still fails: " + mine[0][2][:300], {k: r[k] for k in ("history", "one_step", "failing_step", "from_array_args", "huge", "op", "from_array_reuse", "giant") if k in r})
+        ctx.report(mine[0][1], "replayed failing input still fails: " + mine[0][2][:300], {k: r[k] for k in ("history", "one_step", "failing_step", "from_array_args", "huge", "op", "from_array_reuse", "giant", "near_tie", "ops") if k in r})
     else:
         print("replay: the recorded input no longer fails")
 
@@ -2768,3 +2805,124 @@ def run_giant_case(impl, q):
             break
         idx, sp = res, exp
     return problems, nj, tag
+
+
+# --------------------------------------------------------------------------------------------
+# large 'near-tie' stream (C15): receivers of about 65 536 cells whose common value leads the runner-up by a small margin,
+# then batches (append / update / union_update / filtered) sized between lead/ncols and lead*ncols cells of the runner-up,
+# so that the most frequent value flips or ties.  Judged by the ordinary direct oracles of run_step (NumPy bincount-style
+# count on the dense array, validate(True), dense equality) and the twin comparisons of eq_probe; no Coq literal.
+# --------------------------------------------------------------------------------------------
+
+def near_tie_params(rng):
+    ncols = rng.choice([None, 2, 2, 3, 4])
+    nc = ncols or 1
+    klass = rng.choice(["at-65536", "above-65536", "above-65536", "above-65536", "just-below-65536"])
+    cells = {"at-65536": 65536, "above-65536": rng.randint(65537, 90000), "just-below-65536": rng.randint(64000, 65535)}[klass]
+    rows = -(-cells // nc) if klass != "just-below-65536" else cells // nc
+    A, B, C = rng.sample([0, 1, 2, 3, 5], 3)
+    return {"class": klass, "rows": rows, "cols": ncols, "A": A, "B": B, "C": C, "lead": rng.randint(20, 2000), "third": rng.randint(0, 8),
+            "seed": rng.randrange(10 ** 6)}
+
+
+def near_tie_array(q):
+    nc = q["cols"] or 1
+    size = q["rows"] * nc
+    nA = (size + q["lead"]) // 2
+    flat = numpy.full(size, q["B"], dtype=int)
+    flat[:nA] = q["A"]
+    rs = numpy.random.RandomState(q["seed"])
+    rs.shuffle(flat)
+    # a few cells of a third value, taken from both leaders alike
+    for pos in rs.randint(0, size, q["third"]):
+        flat[pos] = q["C"]
+    return flat.reshape((q["rows"],) if q["cols"] is None else (q["rows"], nc))
+
+
+def near_tie_ops(rng, q, a, common):
+    """1-2 batches that move about lead/ncols .. lead*ncols cells towards the runner-up (flip, exact tie, or just not)."""
+    nc = q["cols"] or 1
+    A, B = q["A"], q["B"]
+    nA, nB = int((a == A).sum()), int((a == B).sum())
+    gap = max(1, nA - nB)                    # cells the runner-up must gain (or the leader lose) to draw level
+    kind = rng.choice(["append", "append", "append", "append", "update+shift", "union+shift", "filtered"])
+    ops = []
+    if kind == "append":
+        want = rng.choice([gap, gap + 1, gap + nc, gap + rng.randint(1, 3 * nc), gap - 1, rng.randint(max(1, gap // nc), gap * nc)])     # cells of B to add
+        r = max(1, -(-want // nc) if rng.random() < 0.5 else want // nc or 1)
+        batch = numpy.full((r,) + a.shape[1:], B, dtype=int)
+        if rng.random() < 0.3:
+            for _ in range(max(1, r * nc // 50)):
+                batch[(rng.randrange(r),) + tuple(rng.randrange(e) for e in a.shape[1:])] = A
+        ocm = rng.choice([B, B, A, q["C"]])
+        ops.append({"op": "append", "other": direct_spec(rng, batch, ocm)})
+    elif kind in ("update+shift", "union+shift"):
+        k = max(1, gap // 2 + rng.choice([-2, -1, 0, 0, 1, 2]))
+        pos = numpy.argwhere(a == A)
+        sel = pos[numpy.random.RandomState(rng.randrange(10 ** 6)).choice(len(pos), min(k, len(pos)), replace=False)]
+        byc = {}
+        for cell in sel.tolist():
+            byc.setdefault(tuple(cell[1:]), []).append(cell[0])
+        ents = [[[B] + list(hc), sorted(rows)] for hc, rows in byc.items()]
+        if kind == "update+shift" or A != common:
+            ops.append({"op": "update", "entries": ents})
+        else:
+            ops.append({"op": "union", "other": ents, "as_index": False})
+        ops.append({"op": "shift"})
+    else:
+        k = gap + rng.choice([-2, -1, 0, 1, 2, gap])
+        rowsA = numpy.nonzero((a == A).reshape(a.shape[0], -1).all(axis=1))[0]
+        drop = rowsA[numpy.random.RandomState(rng.randrange(10 ** 6)).choice(len(rowsA), min(max(1, k // nc), len(rowsA)), replace=False)] if len(rowsA) else []
+        mask = numpy.ones(a.shape[0], dtype=bool)
+        mask[drop] = False
+        ops.append({"op": "filtered", "mask_drop": sorted(int(x) for x in drop)})
+    return ops, kind
+
+
+def expand_near_tie_op(op, nrows):
+    if op["op"] == "filtered" and "mask" not in op:
+        m = numpy.ones(nrows, dtype=bool)
+        m[op["mask_drop"]] = False
+        return {"op": "filtered", "mask": m.tolist()}
+    return op
+
+
+def run_near_tie_case(impl, rng, q, ops=None):
+    """from_array on the near-tie array, then the batches.  Returns (problems, judgements, info)."""
+    import random
+    a = near_tie_array(q)
+    problems = []
+    idx = impl.iindex.from_array(a)
+    if not most_frequent(idx.common, a):
+        problems.append(("C15", "from_array:common-not-most-frequent", "near-tie array %r: from_array chose %r" % (a.shape, idx.common)))
+    kind = None
+    if ops is None:
+        ops, kind = near_tie_ops(rng, q, a, int(idx.common))
+    info = {"ops": ops, "kind": kind, "flipped": False, "tied": False}
+    nj = 1
+    erng = random.Random(q["seed"])
+    for op in ops:
+        if problems:
+            break
+        before_common = int(idx.common)
+        st = run_step(impl, idx, a, expand_near_tie_op(op, a.shape[0]))
+        nj += 3
+        cnts = None
+        if st.expect is not None:
+            vs, cs = numpy.unique(st.expect, return_counts=True)
+            cnts = dict(zip(vs.tolist(), cs.tolist()))
+        for (pp, sig, text) in st.problems:
+            problems.append((pp, sig, (text if len(text) < 400 else text[:200] + " ... " + text[-150:]) + "  [near-tie case %r x %r, value counts after the step %r]" % (q["rows"], q["cols"], cnts)))
+        if st.raised or st.after is None:
+            break
+        idx = st.result
+        a = st.expect if st.expect is not None else densify(st.after)
+        if cnts and st.libchosen:
+            top = sorted(cnts.values())[-2:]
+            info["tied"] = info["tied"] or (len(top) == 2 and top[0] == top[1])
+            info["flipped"] = info["flipped"] or idx.common != before_common
+            cs_, ps = eq_probe(impl, erng, idx, a, [q["A"], q["B"], q["C"]])
+            nj += len(cs_)
+            for (pp, sig, text) in ps:
+                problems.append((pp, sig, text[:200] + " ... [near-tie case %r x %r, value counts %r, common %r]" % (q["rows"], q["cols"], cnts, idx.common)))
+    return problems, nj, info
